@@ -60,7 +60,7 @@ def run(chk):
     chk.assumptions = ["memory safety and stack depth of the real front end are observed through ASan/UBSan and a per-run timeout, not proved",
                        "import loading is exercised by C19's harness; here the analyser sees single-file programs"]
     import translate_tables
-    chk.prove(generated=[translate_tables.keywords, translate_tables.binding_table])
+    chk.prove(generated=[translate_tables.keywords, translate_tables.binding_table, translate_tables.parser_constants])
     rng = chk.rng
     inputs = []
     for fn, o in load_corpus("C13"):
